@@ -54,7 +54,7 @@ let model_kind = function
   | "mtbdd" -> Some Model.KMTBDD
   | _ -> None
 
-let boolean dd = dd <> "mtbdd"
+let boolean dd = dd <> "mtbdd" && dd <> "tdd"
 
 let tval_str (dd : string) (v : Model.tval) : string =
   match v with
@@ -149,26 +149,28 @@ let parse_dump (toks : string list) : dump =
   in
   { dnodes; droots = ints (kv_exn toks "roots") }
 
-(* isomorphism between the model's store/roots and the dump *)
-let check_iso (dd : string) (store : Model.cnode list) (roots : Model.cedge list) (d : dump) : unit =
+(* an edge of a model store, kind independent: terminal description or store index, tag *)
+type gref = GTerm of string | GNode of int
+
+(* isomorphism between a model store/roots (nodes = level and children, any arity) and the dump *)
+let check_iso_g (store : (int * (gref * bool) list) list) (roots : (gref * bool) list) (d : dump) : unit =
   let term_id = Hashtbl.create 8 and inner_id = Hashtbl.create 64 in
   List.iter
     (fun (id, nd) -> match nd with DT s -> Hashtbl.replace term_id s id | DI (l, cs) -> Hashtbl.replace inner_id (l, cs) id)
     d.dnodes;
   let ninner = Hashtbl.length inner_id in
   let smap = Hashtbl.create 64 in
-  let map_edge (e : Model.cedge) : int =
+  let map_edge ((r, tag) : gref * bool) : int =
     let id =
-      match e.Model.ce_ref with
-      | Model.RTerm v -> (
-        try Hashtbl.find term_id (tval_desc dd v) with Not_found -> corr "model terminal %s not in the dump" (tval_desc dd v))
-      | Model.RNode i -> ( try Hashtbl.find smap (int_of_n i) with Not_found -> corr "model edge to unmapped store node")
+      match r with
+      | GTerm desc -> ( try Hashtbl.find term_id desc with Not_found -> corr "model terminal %s not in the dump" desc)
+      | GNode i -> ( try Hashtbl.find smap i with Not_found -> corr "model edge to unmapped store node")
     in
-    if e.Model.ce_tag then -id else id
+    if tag then -id else id
   in
   List.iteri
-    (fun i (n : Model.cnode) ->
-      let key = (int_of_n n.Model.cn_level, [ map_edge n.Model.cn_t; map_edge n.Model.cn_e ]) in
+    (fun i ((level, children) : int * (gref * bool) list) ->
+      let key = (level, List.map map_edge children) in
       match Hashtbl.find_opt inner_id key with
       | Some id -> Hashtbl.replace smap i id
       | None ->
@@ -186,7 +188,12 @@ let check_iso (dd : string) (store : Model.cnode list) (roots : Model.cedge list
       (String.concat "," (List.map string_of_int mroots))
       (String.concat "," (List.map string_of_int d.droots))
 
-(* ---- model import + tables ----------------------------------------------- *)
+let check_iso (dd : string) (store : Model.cnode list) (roots : Model.cedge list) (d : dump) : unit =
+  let g (e : Model.cedge) =
+    ((match e.Model.ce_ref with Model.RTerm v -> GTerm (tval_desc dd v) | Model.RNode i -> GNode (int_of_n i)), e.Model.ce_tag)
+  in
+  check_iso_g (List.map (fun (n : Model.cnode) -> (int_of_n n.Model.cn_level, [ g n.Model.cn_t; g n.Model.cn_e ])) store)
+    (List.map g roots) d
 
 let err_name (e : Model.err) : string =
   match e with
@@ -194,6 +201,49 @@ let err_name (e : Model.err) : string =
   | Model.EIdLarge -> "EIdLarge" | Model.EVarRange -> "EVarRange" | Model.ELevel -> "ELevel" | Model.ENoT -> "ENoT"
   | Model.EOom -> "EOom" | Model.EEnd -> "EEnd" | Model.ESyntax -> "ESyntax" | Model.ENodeId -> "ENodeId"
   | Model.ETerminal -> "ETerminal" | Model.EArity -> "EArity" | Model.ERoot -> "ERoot" | Model.EInternal -> "EInternal"
+
+(* ---- TDD (coq/IO/DddmpTdd.v) ------------------------------------------------------ *)
+
+let tterm_str = function Model.TFalse -> "0" | Model.TUnknown -> "u" | Model.TTrue -> "1"
+
+let tref_g (r : Model.tref) : gref * bool =
+  match r with
+  | Model.TRTerm v -> (GTerm (string_of_mbytes (Model.tdd_desc v)), false)
+  | Model.TRNode i -> (GNode (int_of_n i), false)
+
+let check_iso_tdd (store : Model.tnode list) (roots : Model.tref list) (d : dump) : unit =
+  check_iso_g
+    (List.map
+       (fun (n : Model.tnode) -> (int_of_n n.Model.tn_level, [ tref_g n.Model.tn_t; tref_g n.Model.tn_u; tref_g n.Model.tn_e ]))
+       store)
+    (List.map tref_g roots) d
+
+type tdres = TdOk of Model.header * Model.tst * Model.tref list | TdErr of string | TdSkip
+
+(* the TDD readers of the model on the whole file: [strict] = the arity check of the code *)
+let model_tdd (strict : bool) (file : string) (slm : int list) : tdres =
+  try
+    match Model.tdd_import_whole_guarded strict (List.map n_of_int slm) (mbytes_of_string file) with
+    | Model.TOk ((h, st), roots) -> TdOk (h, st, roots)
+    | Model.THdr Model.HInternal -> raise (Bad ("corr", "the model loader reached a state proved unreachable (HInternal)"))
+    | Model.THdr e -> TdErr ("header " ^ herr_name e)
+    | Model.TPre -> TdErr "TPre"
+    | Model.TBinary -> TdErr "TBinary"
+    | Model.TBody Model.EInternal -> raise (Bad ("corr", "the model TDD reader reached a state proved unreachable (EInternal)"))
+    | Model.TBody e -> TdErr (err_name e)
+  with Stack_overflow | Out_of_memory -> TdSkip
+
+(* value of a model TDD root under an assignment of the variables (value of variable v = a v) *)
+let tdd_value (st : Model.tst) (v2l : int array) (a : int -> Model.tterm) (root : Model.tref) : string =
+  let env (l : Model.n) : Model.tterm =
+    let l = int_of_n l in
+    let r = ref Model.TFalse in
+    Array.iteri (fun v lv -> if lv = l then r := a v) v2l;
+    !r
+  in
+  tterm_str (Model.tdd_eval_root st.Model.ts_store env root)
+
+(* ---- model import + tables ----------------------------------------------- *)
 
 (* the model importer (coq/IO/DddmpFile.v import_whole_guarded: header loader + node section +
    trailer + roots) on the whole [file]; [slm] = level of every support position, [nlevels] *)
@@ -235,6 +285,7 @@ let model_table (dd : string) (k : Model.kind) (st : Model.ist) (nlevels : int) 
 
 type xopts = {
   ver3 : bool; ascii : bool; strict : bool; ddname : string option; named_roots : bool; roots : (int * string) list;
+  chain : string list; (* builder calls of the getter probe *)
 }
 
 let parse_xopts (toks : string list) : xopts =
@@ -255,7 +306,31 @@ let parse_xopts (toks : string list) : xopts =
     ddname = tok_name (kv_exn toks "dd");
     named_roots = kv_exn toks "rn" = "1";
     roots;
+    chain = (match kv toks "chain" with Some c -> split_on ',' c | None -> []);
   }
+
+(* ExportSettings (coq/IO/DddmpTdd.v): the builder calls of the harness *)
+let setter_of_tok (c : string) : Model.setter =
+  match c with
+  | "a" -> Model.SAscii
+  | "b" -> Model.SBinary
+  | "v2" -> Model.SVersion false
+  | "v3" -> Model.SVersion true
+  | "s0" -> Model.SStrict false
+  | "s1" -> Model.SStrict true
+  | c when String.length c >= 1 && c.[0] = 'n' ->
+    Model.SName (mbytes_of_string (match tok_name (String.sub c 1 (String.length c - 1)) with Some n -> n | None -> ""))
+  | c -> failwith ("unknown builder call " ^ c)
+
+(* what the harness prints for the getters of a settings value *)
+let show_settings (st : Model.settings) : string =
+  Printf.sprintf "ver=%d ascii=%d strict=%d ddn=%s"
+    (if st.Model.get_version3 then 3 else 2)
+    (if st.Model.is_ascii then 1 else 0)
+    (if st.Model.is_strict then 1 else 0)
+    (match string_of_mbytes st.Model.get_diagram_name with "" -> "e" | n -> String.concat "" (List.map (fun c -> Printf.sprintf "%02x" (Char.code c)) (List.init (String.length n) (String.get n))))
+
+let arity_of dd = if dd = "tdd" then Model.tdd_arity else n_of_int 2
 
 let apply_mutation (base : string) (toks : string list) : string =
   let n = String.length base in
@@ -433,6 +508,26 @@ let check_export dd nv (names : string option array) (tables : string array list
         tt
     | Some toks -> prop "import with a variable mapping failed: %s" (String.concat " " toks)
   end;
+  (* 5b. ExportSettings: getters of the settings in use and of the probe chain, binary_supported *)
+  let settings =
+    Model.apply_setters
+      [ Model.SVersion o.ver3; Model.SStrict o.strict;
+        Model.SName (mbytes_of_string (match o.ddname with Some d -> d | None -> ""));
+        (if o.ascii then Model.SAscii else Model.SBinary) ]
+  in
+  let nterm = match kv src "nterm" with Some t -> n_of_int (int_of_string t) | None -> corr "missing nterm" in
+  (match find ".set" with
+  | None -> corr "missing .set line"
+  | Some toks ->
+    let want =
+      Printf.sprintf "bs=%d %s | %s"
+        (if Model.binary_supported (arity_of dd) nterm then 1 else 0)
+        (show_settings settings)
+        (show_settings (Model.apply_setters (List.map setter_of_tok o.chain)))
+    in
+    let got = String.concat " " toks in
+    if got <> want then prop "ExportSettings getters / binary_supported report [%s], expected [%s]" got want;
+    stat "settings_probes" 1);
   (* 6. the header: the model loader reads what the real loader reads, and the exporter's
      header model prints the real header byte for byte *)
   let off = int_of_string (kv_exn hdr "off") in
@@ -452,9 +547,8 @@ let check_export dd nv (names : string option array) (tables : string array list
        (* export.rs: ascii = settings.ascii || !binary_supported(manager) (two children and a single
           terminal in the manager) || some exported terminal is not printed as "T" *)
        x_ascii =
-         o.ascii || dd = "tdd"
-         || (match kv src "nterm" with Some "1" -> false | _ -> true)
-         || List.exists (fun (_, n) -> match n with DT d -> d <> "T" | DI _ -> false) dump.dnodes;
+         Model.export_ascii_mode settings (arity_of dd) nterm
+           (List.filter_map (fun (_, n) -> match n with DT d -> Some (mbytes_of_string d) | DI _ -> None) dump.dnodes);
        x_dd = mbytes_of_string (match o.ddname with Some d -> d | None -> "");
        x_nnodes = n_of_int (List.length dump.dnodes);
        x_vars = List.init nv (fun v -> (n_of_int v2l.(v), List.mem v supp));
@@ -474,6 +568,74 @@ let check_export dd nv (names : string option array) (tables : string array list
    stat "headers_reproduced" 1);
   (* 7. the model's reading of the bytes = the real diagram *)
   (match model_kind dd with
+  | None when dd = "tdd" ->
+    (* the decoder of the model reads the file; the reader with the arity check of the code
+       rejects it (C15_tdd_code_rejects_whole) unless it has no node *)
+    let order = ints (kv_exn hdr "order") in
+    let slm = List.map (fun v -> v2l.(v)) order in
+    let nnodes = List.length dump.dnodes in
+    (match model_tdd true file slm with
+    | TdErr "EArity" when nnodes > 0 -> stat "tdd_code_reader_rejects" 1
+    | TdOk _ when nnodes = 0 -> stat "tdd_code_reader_accepts_empty" 1
+    | TdSkip -> ()
+    | TdErr e -> corr "the reader with the arity check of the code: %s on an exported file with %d nodes" e nnodes
+    | TdOk _ -> corr "the reader with the arity check of the code accepts an exported TDD file with %d nodes" nnodes);
+    (match model_tdd false file slm with
+    | TdErr e -> corr "model TDD decoder rejects the exporter's file: %s" e
+    | TdSkip -> corr "model TDD decoder ran out of stack on the exporter's file"
+    | TdOk (mhdr, st, roots) ->
+      if mhdr <> mh then corr "TDD decoder returns another header than the loader";
+      check_iso_tdd st.Model.ts_store roots dump;
+      (* two-valued tables *)
+      List.iteri
+        (fun j r ->
+          let t =
+            String.concat ","
+              (List.init (1 lsl nv) (fun a -> tdd_value st v2l (fun v -> if (a lsr v) land 1 = 1 then Model.TTrue else Model.TFalse) r))
+          in
+          if t <> List.nth orig j then prop "decoded root %d has table %s, the exported function %s" j t (List.nth orig j))
+        roots;
+      (* three-valued tables *)
+      (match find ".orig3" with
+      | None -> ()
+      | Some toks ->
+        let t3 = split_on '|' (kv_exn toks "tt") in
+        if List.length t3 <> List.length roots then corr ".orig3 has %d tables for %d roots" (List.length t3) (List.length roots);
+        let n3 = int_of_float (3. ** float_of_int nv) in
+        List.iteri
+          (fun j r ->
+            let b = Buffer.create n3 in
+            for a = 0 to n3 - 1 do
+              let digit v =
+                let rec p x k = if k = 0 then x else p (x / 3) (k - 1) in
+                p a v mod 3
+              in
+              Buffer.add_string b
+                (tdd_value st v2l (fun v -> match digit v with 0 -> Model.TFalse | 1 -> Model.TUnknown | _ -> Model.TTrue) r)
+            done;
+            if Buffer.contents b <> List.nth t3 j then
+              prop "decoded root %d has the three-valued table %s, the exported function %s" j (Buffer.contents b) (List.nth t3 j))
+          roots;
+        stat "tdd_three_valued_tables" (List.length roots));
+      stat "model_nodes_read" (List.length st.Model.ts_store);
+      (* the exporter model reproduces the node section byte for byte *)
+      let body_len = String.length file - off - 5 in
+      if export_ok && body_len >= 0 && String.sub file (off + body_len) 5 = ".end\n" then begin
+        let body = String.sub file off body_len in
+        let nterms = List.length (List.filter (fun (_, n) -> match n with DT _ -> true | DI _ -> false) dump.dnodes) in
+        let terms =
+          List.filteri (fun i _ -> i < nterms) st.Model.ts_nodes
+          |> List.map (function Model.TRTerm v -> v | Model.TRNode _ -> corr "an inner node among the first %d node IDs" nterms)
+        in
+        let pos (l : Model.n) : Model.n =
+          let l = int_of_n l in
+          let rec f i = function [] -> corr "level not in support" | x :: r -> if x = l then i else f (i + 1) r in
+          n_of_int (f 0 slm)
+        in
+        let txt = string_of_mbytes (Model.tdd_export_nodes (Model.tdd_anodes terms pos st.Model.ts_store)) in
+        if txt <> body then corr "TDD exporter model prints %S, real node section is %S" txt body;
+        stat "tdd_sections_reproduced" 1
+      end)
   | None -> ()
   | Some k ->
     let order = ints (kv_exn hdr "order") in
@@ -566,6 +728,22 @@ let check_mutation dd (base : string) (toks : string list) (res : string) : unit
         compare_header (fun m -> corr "%s" m) h off rt;
         stat "mal_headers_equal" 1);
       match kv rt "skip" with
+      | Some _ when dd = "tdd" && kv rt "skip" = Some "no-importer" -> (
+        (* no real importer: the readers of the model on the same bytes (totality, and the reader
+           of the code is a restriction of the decoder) *)
+        match mh with
+        | HdrOk (h, _) -> (
+          let slm = List.init (List.length h.Model.h_ids) (fun i -> i) in
+          let a = model_tdd true file slm and b = model_tdd false file slm in
+          (match (a, b) with
+          | TdOk (h1, s1, r1), TdOk (h2, s2, r2) -> if (h1, s1, r1) <> (h2, s2, r2) then corr "the two TDD readers of the model accept with different results"
+          | TdOk _, TdErr e -> corr "the TDD reader with the arity check accepts, the decoder rejects (%s)" e
+          | _ -> ());
+          match b with
+          | TdOk _ -> stat "tdd_mal_decoder_accepts" 1
+          | TdErr e -> stat "tdd_mal_decoder_rejects" 1; stat ("tdd_mal_" ^ e) 1
+          | TdSkip -> stat "mal_model_skipped" 1)
+        | _ -> ())
       | Some _ -> stat "mal_skipped" 1
       | None -> (
         let sv = ints (kv_exn rt "sv") in
